@@ -144,6 +144,8 @@ INVARIANT Exclusive
                     esc_uris.append(L(raw))
                     found += 1
         extra_uris += esc_uris
+        # request URIs with bytes outside ASCII that are no stager URIs however the bytes are read: the request is known, the response is not inspected
+        extra_uris += [L(b"/\xff"), L(b"/a\x80"), L("/é".encode()), L(b"/\xc3\xa9\xe2\x82\xac")]
         for known in (True, False):
             for uri in [u for i, u in enumerate(uris) if i % 2 == 0] + extra_uris:
                 for method in (b"GET", b"POST", b"HEAD"):
@@ -207,6 +209,28 @@ INVARIANT Exclusive
             o = core.outcome(lambda: utils.random_stager_uri(x64=x64, length=length))
             ev.append({"op": "gen", "x64": x64, "length": length, "r": o[0] if o[0] == "ok" else o[1], "uri": L(o[1].encode()) if o[0] == "ok" else [47]})
         ctx.evaluations += 6
+    # four-character URIs that sum to 92 / 93 with one character that is not alphanumeric (every printable punctuation mark, in every position)
+    alnum = string.ascii_letters + string.digits
+    for pch in string.punctuation:
+        for want in (92, 93):
+            for pos in range(4):
+                t = None
+                for a_ in alnum:
+                    for b_ in alnum[::7]:
+                        need = (want - ord(pch) - ord(a_) - ord(b_)) % 256
+                        if chr(need) in alnum:
+                            body_ = [a_, b_, chr(need)]
+                            body_.insert(pos, pch)
+                            t = "/" + "".join(body_)
+                            break
+                    if t:
+                        break
+                if t is None:
+                    continue
+                o3 = (core.outcome(utils.checksum8, t), core.outcome(utils.is_stager_x86, t), core.outcome(utils.is_stager_x64, t))
+                okk = all(x[0] == "ok" for x in o3)
+                ev.append({"op": "uri", "uri": L(t.encode()), "r": "ok" if okk else "exc", "c8": o3[0][1] if okk else -1, "x86": bool(o3[1][1]) if okk else False, "x64": bool(o3[2][1]) if okk else False})
+                ctx.evaluations += 1
     # histories with one key: a short call followed by longer ones across the 8192 boundary (state carried between calls)
     for key in (b".", b"\x69", b"\x01\x02"):
         for size in (10, 8191, 8192, 8193, 12289, 3, 20000):
